@@ -193,6 +193,8 @@ def parts(tier):
     def gen_dy():
         for s in sets:
             variants = [D.labelled(s, "abc")] + ([D.labelled(s, "a")] if len(s) > 1 else [])
+            # (intervals whose label is the empty string - what openTextgrid(includeEmptyIntervals=True) puts into a tier - are intervals like any other)
+            variants += [D.labelled(s, ("", "b")), D.labelled(s, ("a", ""))][:len(s)]
             for e in variants:
                 for s0 in S:
                     for d in durs:
